@@ -39,6 +39,10 @@ Tables ==
   \cup {[table |-> TName, cols |-> [k \in 1..n |-> IntCol(<<67, 48 + (k \div 10), 48 + (k % 10)>>, "i16", FALSE, k = 1)]] : n \in {1, 2, 31, 32, 33}}
   \cup {[table |-> TName, cols |-> <<Col(Nm, "s", 8, F0, <<>>, <<>>, <<>>, <<>>)>>]}         \* no key
   \cup {[table |-> TName, cols |-> <<K0, K0>>], [table |-> TName, cols |-> <<>>]}
+  \* the ORDER of the columns is the caller's: key columns last, and interleaved with the others
+  \cup {[table |-> TName, cols |-> d \o <<K0>>] : d \in {<<Col(Nm, "s", 8, F0, <<>>, <<>>, <<>>, <<>>)>>, <<Col(Nm, "i32", 0, F0, <<0, 9>>, <<>>, <<>>, <<>>)>>}}
+  \cup {[table |-> TName, cols |-> <<IntCol(<<65>>, "i16", FALSE, TRUE), Col(Nm, "s", 8, F0, <<>>, <<>>, <<>>, <<>>),
+                                     IntCol(<<66>>, "i32", FALSE, TRUE), Col(<<68>>, "i16", 0, F0, <<>>, <<>>, <<>>, <<>>), StrCol(<<69>>, 4, FALSE, TRUE, <<>>)>>]}
 
 \* the table name must also be packable into a stream name of at most 31 UTF-16 units
 \* (two characters per unit plus the table marker): at most 60 characters
